@@ -19,7 +19,7 @@ MANIFEST = {
                   "data(type indicator, locale, value) mime dac3 dec3(substreams) vttC vlab ctim iden sttg payl vtta vtte vsid "
                   "and the field prefixes of stsd, dref, VisualSampleEntry (avc1 avc3 hvc1 hev1 encv av01 vp08 vp09), AudioSampleEntry "
                   "(mp4a enca ac-3 ec-3), wvtt and the ISO form of meta, everything the decoder accepts is reproduced from the decoded value plus the captured bytes "
-                  "(C01_leaf_lossless_stage1..3,5 = one conjunct per kind; dac3/dec3: under the guard that the payload is InitialZeroes+3 bytes / the substreams' reserved bits are 0, C01_leaf_table, C01_pre_table); C01_tree: every slice accepted by the model of DecodeBoxSR "
+                  "(C01_leaf_lossless_stage1..3,5 = one conjunct per kind; dac3/dec3: under the guard that the payload is InitialZeroes+3 bytes / the substreams' reserved bits are 0, C01_leaf_stable: both dispatch tables, lossless + name + print-then-parse per entry); C01_tree: every slice accepted by the model of DecodeBoxSR "
                   "(pure containers moov trak mdia minf stbl moof traf mvex dinf edts udta sinf schi mfra tref ilst (c)ART (c)nam (c)too (c)cpy desc vttc and the "
                   "QuickTime form of meta chosen by the look-ahead of DecodeMetaSR, prefixed containers, unknown "
                   "boxes, the leaves above, any nesting) whose tree is exact re-encodes bit for bit; C01_why_complete / "
@@ -32,15 +32,15 @@ MANIFEST = {
                   "FILE LEVEL: decode_file_sr models the loop of DecodeFileSR with the rules that are not box-local (moov needs the "
                   "first-trak/mdia/minf/stbl/stts chain; mdat placement for fragmented and progressive files; traf with unparsed senc "
                   "needs a tfhd when a moov is there; isFragmented; a cut-short mdat ends the loop; trailing bytes / size-0 headers refused); "
-                  "C01_file_rules: the loop = box loop + rules; C01_file_accepted: for EVERY byte string the loop accepts with exact trees, "
+                  "C01_file_rules: the loop = box loop + rules; C01_file_boxtree: for EVERY byte string the loop accepts with exact trees, "
                   "File.Encode (Box.Encode per child: progressive files and box-tree mode) and File.EncodeSW succeed with the same bytes of the "
                   "input's length, which are accepted AGAIN with the same trees up to captured bytes and the same IsFragmented(), and "
-                  "encode to themselves; examples: progressive files with the mdat before and after the moov, a fragmented file, refused "
-                  "files; C01_file_boxtree: the same without the rules; "
+                  "encode to themselves (second conjunct: the same for the bare box loop); examples: progressive files with the mdat before and after the moov, a fragmented file, refused "
+                  "files; "
                   "they rest on C01_header_local / C01_leaf_stable: print-then-parse holds for every entry of the dispatch tables; "
                   "for esds the exactness guard asks that every descriptor size field is in the encoder's form and "
                   "that no UnknownData was kept, for sgpd that every seig reserved byte is 0, for wvtt that the prefix was read "
-                  "(C01_esds_size_overflow_refuted, C01_sgpd_seig_reserved_refuted, C01_wvtt_short_refuted; an esds with UnknownData is "
+                  "(C01_guards_refuted: one witness each, also for dac3 and dec3; an esds with UnknownData is "
                   "reproduced but only explored); "
                   "every excluded shape / defect class is witnessed by a *_refuted theorem (file level: C01_file_truncated_mdat_refuted); "
                   "complete real files and a real udta{meta{hdlr ilst{(c)too{data}}}} box in both MetaBox forms decode inside Coq, are "
@@ -174,7 +174,7 @@ REASON_SIG = {
     "esds-size-field-rewritten": ("esds", "model:noncanonical-size-field-rewritten"),
     "piff-senc-sample-count-zero-data-dropped": ("uuid", "model:piff-senc-sample-count-zero-data-dropped-size-kept"),
     "trun-data-offset-zero": ("trun", "accepted-but-encode-error"),
-    "wvtt-prefix-cut-short": ("leaf-decoders", "header-size-ignored"),     # C01_wvtt_short_refuted
+    "wvtt-prefix-cut-short": ("leaf-decoders", "header-size-ignored"),     # C01_guards_refuted
     "dac3-payload-not-zeroes-plus-3-bytes": ("dac3", "model:payload-shorter-than-3-bytes-padded-or-256k-extra-bytes-dropped"),
     "dec3-reserved-bits-rewritten": ("leaf-decoders", "model:reserved-bits-outside-the-listed-bytes-rewritten"),
     "moof-trun-data-offset-zero": ("trun", "accepted-but-encode-error"),
